@@ -2,6 +2,7 @@ package main
 
 import (
 	"fmt"
+	"go/token"
 	"go/types"
 	"sort"
 	"strings"
@@ -253,36 +254,73 @@ func ruleSetterScope(r *Run) {
 		var extra []string
 		fromParam := true
 		var getCall, setCall *ssa.Call
-		allInstrs(fn, func(in ssa.Instruction) {
-			switch x := in.(type) {
-			case *ssa.Call:
-				if cal := staticCallee(x); cal != nil {
-					switch cal.Name() {
-					case "GetPageSettings":
-						getCall = x
-					case "SetPageSettings":
-						setCall = x
+		rmwViaHelper := false
+		// the setter's own body and the function literals it creates (a modify callback handed to a
+		// shared read-modify-write helper)
+		bodies := []*ssa.Function{fn}
+		bodies = append(bodies, fn.AnonFuncs...)
+		for _, body := range bodies {
+			allInstrs(body, func(in ssa.Instruction) {
+				switch x := in.(type) {
+				case *ssa.Call:
+					if cal := staticCallee(x); cal != nil {
+						switch cal.Name() {
+						case "GetPageSettings":
+							getCall = x
+						case "SetPageSettings":
+							setCall = x
+						default:
+							// updatePageSettings(func(s *PageSettings) { … }): the helper reads all
+							// settings, lets the callback modify that object and writes it back
+							if body == fn && p.inModule(cal) && isRMWHelper(p, cal) {
+								for _, a := range x.Call.Args {
+									if mc, ok := a.(*ssa.MakeClosure); ok && mc.Fn.(*ssa.Function).Parent() == fn {
+										rmwViaHelper = true
+									}
+								}
+							}
+						}
+					}
+				case *ssa.Store:
+					fv, _ := fieldOfAddr(x.Addr)
+					if fv == nil {
+						return
+					}
+					if o := fieldOwner(p, fv); o == nil || o.Obj().Name() != "PageSettings" {
+						return
+					}
+					stored[fv.Name()] = true
+					if !allowed[fv.Name()] {
+						extra = append(extra, fv.Name())
+					}
+					val := stripConv(x.Val)
+					// a captured argument of the setter: loaded from / bound to a free variable
+					if ld, ok := val.(*ssa.UnOp); ok && ld.Op == token.MUL {
+						if fvr, ok := ld.X.(*ssa.FreeVar); ok {
+							val = fvr
+						}
+					}
+					if fvr, ok := val.(*ssa.FreeVar); ok {
+						if b := freeVarBinding(fn, body, fvr); b != nil {
+							val = stripConv(b)
+							// captured by reference: the binding is the address of the parameter's spill slot
+							if al, ok := val.(*ssa.Alloc); ok && al.Referrers() != nil {
+								for _, u := range *al.Referrers() {
+									if st, ok := u.(*ssa.Store); ok && st.Addr == ssa.Value(al) {
+										val = stripConv(st.Val)
+									}
+								}
+							}
+						}
+					}
+					switch val.(type) {
+					case *ssa.Parameter, *ssa.Const:
+					default:
+						fromParam = false
 					}
 				}
-			case *ssa.Store:
-				fv, _ := fieldOfAddr(x.Addr)
-				if fv == nil {
-					return
-				}
-				if o := fieldOwner(p, fv); o == nil || o.Obj().Name() != "PageSettings" {
-					return
-				}
-				stored[fv.Name()] = true
-				if !allowed[fv.Name()] {
-					extra = append(extra, fv.Name())
-				}
-				switch stripConv(x.Val).(type) {
-				case *ssa.Parameter, *ssa.Const:
-				default:
-					fromParam = false
-				}
-			}
-		})
+			})
+		}
 		var missing []string
 		for f := range allowed {
 			if !stored[f] {
@@ -295,11 +333,71 @@ func ruleSetterScope(r *Run) {
 		r.Check("setter-scope", name, fn.Pos(), ok,
 			fmt.Sprintf("%s must store exactly the settings it names %v from its arguments; extra=%v missing=%v valuesFromArguments=%v", name, setterFields[name], extra, missing, fromParam))
 		// read-modify-write on the same object
-		rmw := getCall != nil && setCall != nil && len(setCall.Call.Args) >= 2 && stripLoads(setCall.Call.Args[1]) == ssa.Value(getCall)
+		rmw := rmwViaHelper || getCall != nil && setCall != nil && len(setCall.Call.Args) >= 2 && stripLoads(setCall.Call.Args[1]) == ssa.Value(getCall)
 		r.Check("setter-scope", name+":read-modify-write", fn.Pos(), rmw,
 			fmt.Sprintf("%s must pass the object returned by GetPageSettings (all other settings unchanged) to SetPageSettings", name))
 	}
 	r.Min("convenience_setters", n, 7)
+}
+
+// freeVarBinding: the value bound to free variable fv of literal lit where parent creates it.
+func freeVarBinding(parent, lit *ssa.Function, fv *ssa.FreeVar) ssa.Value {
+	idx := -1
+	for i, f := range lit.FreeVars {
+		if f == fv {
+			idx = i
+		}
+	}
+	if idx < 0 {
+		return nil
+	}
+	var out ssa.Value
+	allInstrs(parent, func(in ssa.Instruction) {
+		if mc, ok := in.(*ssa.MakeClosure); ok && mc.Fn == ssa.Value(lit) && idx < len(mc.Bindings) {
+			out = mc.Bindings[idx]
+		}
+	})
+	return out
+}
+
+// isRMWHelper: h obtains the full settings with GetPageSettings, hands that very object to a
+// callback parameter and then to SetPageSettings (and does nothing else to it).
+func isRMWHelper(p *Program, h *ssa.Function) bool {
+	var get, set *ssa.Call
+	cbOK := false
+	otherStore := false
+	allInstrs(h, func(in ssa.Instruction) {
+		switch x := in.(type) {
+		case *ssa.Call:
+			if cal := staticCallee(x); cal != nil {
+				switch cal.Name() {
+				case "GetPageSettings":
+					get = x
+				case "SetPageSettings":
+					set = x
+				}
+			}
+		case *ssa.Store:
+			if fv, _ := fieldOfAddr(x.Addr); fv != nil {
+				if o := fieldOwner(p, fv); o != nil && o.Obj().Name() == "PageSettings" {
+					otherStore = true
+				}
+			}
+		}
+	})
+	if get == nil || set == nil || otherStore {
+		return false
+	}
+	allInstrs(h, func(in ssa.Instruction) {
+		c, ok := in.(*ssa.Call)
+		if !ok {
+			return
+		}
+		if par, ok := c.Call.Value.(*ssa.Parameter); ok && par.Parent() == h && len(c.Call.Args) == 1 && stripLoads(c.Call.Args[0]) == ssa.Value(get) {
+			cbOK = true
+		}
+	})
+	return cbOK && len(set.Call.Args) >= 2 && stripLoads(set.Call.Args[1]) == ssa.Value(get)
 }
 
 var _ = strings.TrimSpace
